@@ -1,62 +1,17 @@
 /-
-`Proofs.Cf.CompleteKw` — PARSER COMPLETENESS for the whole RFC 9535 language, for every environment whose
-registered function names do not begin with a keyword literal (`true`, `false`, `null`).
-(`Cf.compile_complete_refuted` shows that the hypothesis cannot be dropped.)
+`Proofs.Cf.CompleteKw` — parser completeness restricted to the environments whose registered function names
+do not begin with a keyword literal (`true`, `false`, `null`).  Before the lexer's keyword patterns got
+their lookahead (`Impl.reKeyword`) the restriction was necessary; now the statement is the special case of
+`Proofs.compile_complete` (every environment), kept for its users.
 -/
-import JPV.Proofs.Cf.LexTop
-import JPV.Proofs.Cf.ParseTop
-import JPV.Proofs.Cf.Mono
-import JPV.Proofs.Cf.NoKw
-import JPV.Proofs.ParseFuel
+import JPV.Proofs.CompleteFull
 namespace JPV.Proofs
 open JPV JPV.Impl
 
-theorem compile_complete_kwfree (env : Env) (hkw : Cf.KwFree env) (s : Str) (c : List Spec.CSegment)
+theorem compile_complete_kwfree (env : Env) (_hkw : Cf.KwFree env) (s : Str) (c : List Spec.CSegment)
     (hj : Spec.judge (sigsOfEnv' env) env.minIdx env.maxIdx s = (.valid, some c)) :
-    Impl.compile env s = .ok (Spec.abstractSegs c) := by
-  -- unpack the judge
-  have hpv : Spec.parseQuery s = .valid c ∧
-      (Spec.cSegs (sigsOfEnv' env) env.minIdx env.maxIdx c).1 = true := by
-    unfold Spec.judge at hj
-    split at hj
-    · cases hj
-    · rename_i q hq
-      simp only [Prod.mk.injEq, Option.some.injEq] at hj
-      obtain ⟨h1, rfl⟩ := hj
-      refine ⟨hq, ?_⟩
-      cases hr : (Spec.cSegs (sigsOfEnv' env) env.minIdx env.maxIdx q).1 with
-      | true => rfl
-      | false => simp [hr] at h1
-    · rename_i q hq
-      simp only [Prod.mk.injEq, Option.some.injEq] at hj
-      obtain ⟨h1, rfl⟩ := hj
-      split at h1 <;> cases h1
-  obtain ⟨hp, hv⟩ := hpv
-  have hnk := Cf.nk_segs env hkw env.minIdx env.maxIdx c hv
-  obtain ⟨ts, k0, ke, hsh, htok⟩ := Cf.tokenize_full s c hp hnk
-  obtain ⟨F0, hF0⟩ := Cf.parse_top_full env hsh hv ⟨.root, ['$'], k0⟩ ⟨.eof, [], ke⟩ rfl rfl
-  unfold Impl.compile
-  rw [htok]
-  simp only
-  generalize htoks : (⟨.root, ['$'], k0⟩ :: (ts ++ [⟨.eof, [], ke⟩]) : List Token) = toks at *
-  -- the result with the implementation's fuel is not a fuel error, so it is the result with large fuel
-  have hbig := hF0 (max F0 (parseFuel toks.length)) (Nat.le_max_left _ _)
-  have hl : ∃ t, toks.getLast? = some t ∧ t.kind = .eof := by
-    subst htoks
-    refine ⟨⟨.eof, [], ke⟩, ?_, rfl⟩
-    rw [← List.cons_append, List.getLast?_append]
-    rfl
-  cases hr : (exec (parseTop env (parseFuel toks.length)) (TStream.init toks)).1 with
-  | ok q =>
-    have := Cf.parseTop_mono env _ _ (Nat.le_max_right F0 _) _ _ hr (by intro e he; cases he)
-    rw [hbig] at this
-    exact hr.trans this.symm ▸ rfl
-  | error e =>
-    have hnf : e.kind ≠ .fuel := parseTop_no_fuel env toks hl e hr
-    have := Cf.parseTop_mono env _ _ (Nat.le_max_right F0 _) _ _ hr
-      (by intro e' he'; cases he'; exact hnf)
-    rw [hbig] at this
-    cases this
+    Impl.compile env s = .ok (Spec.abstractSegs c) :=
+  compile_complete env s c hj
 
 /-- a decidable sufficient condition for `Cf.KwFree`: no entry of the registry has a keyword-prefixed name -/
 def kwFreeB (env : Env) : Bool := env.funcs.all (fun p => !Cf.kwName p.1)
